@@ -233,8 +233,9 @@ def place (f : Flow) : Mut → Mut
 
 def muts (f : Flow) (onTmp : Bool) (ms : List Mut) : List Instr := ms.map (fun m => .mut onTmp (place f m))
 
-def runProg (f : Flow) (s : Script) : List Instr :=
-  [.getMutable f.runFirstInplace] ++ muts f false s.gather ++
+/-- everything `run` does after `plan = get_mutable_plan(plan, inplace=…)` -/
+def runRest (f : Flow) (s : Script) : List Instr :=
+  muts f false s.gather ++
   (if s.useRegistry then
      [.getMutable f.pwvsInplace, .forkTmp f.staleInplace] ++ muts f true s.stale ++ muts f false s.stores ++
      [.getMutable f.pwvsPruneInplace] ++ muts f false s.prune
@@ -243,11 +244,14 @@ def runProg (f : Flow) (s : Script) : List Instr :=
   [.getMutable f.physInplace] ++ muts f false s.phys ++
   (if f.registryWrites then s.wild.map (fun e => .wild e.1 e.2) else [])
 
+def runProg (f : Flow) (s : Script) : List Instr := .getMutable f.runFirstInplace :: runRest f s
+
+def renderRest (f : Flow) (s : Script) : List Instr :=
+  muts f false s.render ++ (if f.registryWrites then s.wild.map (fun e => .wild e.1 e.2) else [])
+
 /-- `render`: `graph = (plan.graph if isinstance(plan, Plan) else plan).copy()`, then filtering / grouping on
     `graph`.  The local variable `graph` is represented by a wrapper plan object (`cur`). -/
-def renderProg (f : Flow) (s : Script) : List Instr :=
-  [.getMutable (!f.renderCopies)] ++ muts f false s.render ++
-  (if f.registryWrites then s.wild.map (fun e => .wild e.1 e.2) else [])
+def renderProg (f : Flow) (s : Script) : List Instr := .getMutable (!f.renderCopies) :: renderRest f s
 
 /-- the state after the first `n` instructions (an exception at any point, `dry_run`, or completion) -/
 def runN (w : Who) (h : Heap) (p : Nat) (prog : List Instr) (n : Nat) : T × Heap :=
